@@ -396,6 +396,59 @@ def run_valid(item: Tuple[Tuple[int, int, int, int], str, Tuple[float, ...]]) ->
     return (problems[0] if problems else None), f"valid:{'bad' if problems else 'ok'}"
 
 
+REENTRANT_RECORDS = {"a": ("A", "hx.local.", 0x8001, 2, bytes([10, 0, 0, 61])),
+                     "ptr": ("PTR", "_c._tcp.local.", 1, 2, "short._c._tcp.local."),
+                     "srv": ("SRV", "short._c._tcp.local.", 0x8001, 2, 0, 0, 80, "hx.local."),
+                     "txt": ("TXT", "short._c._tcp.local.", 0x8001, 2, b"\x01z")}
+
+
+def reentrant_points() -> List[Tuple[str, int, str, str]]:
+    return [(kind, age, second, when) for kind in REENTRANT_RECORDS for age in (500, 1999, 2000, 2001, 5000, 11000)
+            for second in ("goodbye", "refresh", "other") for when in ("first-round", "complete")]
+
+
+def run_reentrant(item: Tuple[str, int, str, str]) -> Tuple[Optional[str], str]:
+    """An application listener that reacts to a record update by starting to listen for something else (from inside the
+    first-round callback or from the completion callback) while short-lived records come, run out and are withdrawn or
+    refreshed - valid traffic, valid use of the API."""
+    kind, age, second, when = item
+    problems: List[str] = []
+    with World(rand=RandPolicy.const(0.0)) as w:
+        from zeroconf import DNSQuestion, RecordUpdateListener
+        host, lst = busy_world(w)
+        zc = host.zc
+
+        class Other(RecordUpdateListener):
+            def async_update_records(self, zc_: Any, now: float, records: Any) -> None: pass
+            def async_update_records_complete(self) -> None: pass
+
+        other = Other()
+
+        class Reacting(RecordUpdateListener):
+            def async_update_records(self, zc_: Any, now: float, records: Any) -> None:
+                if when == "first-round":
+                    zc.async_add_listener(other, DNSQuestion("_zz._tcp.local.", 12, 1))
+
+            def async_update_records_complete(self) -> None:
+                if when == "complete":
+                    zc.async_add_listener(other, DNSQuestion("_zz._tcp.local.", 12, 1))
+
+        zc.async_add_listener(Reacting(), None)
+        rec = REENTRANT_RECORDS[kind]
+        # (the pointer floor lengthens a pointer's two seconds; the others run out after two)
+        deliver(w, host, wire.response([rec]), ("10.0.0.94", 5353))
+        w.advance(age)
+        nxt = {"goodbye": rec[:3] + (0,) + rec[4:], "refresh": rec[:3] + (120,) + rec[4:],
+               "other": ("A", "hy.local.", 0x8001, 120, bytes([10, 0, 0, 62]))}[second]
+        deliver(w, host, wire.response([nxt]), ("10.0.0.94", 5353))
+        w.advance(500)
+        excs = w.exceptions()
+        if excs:
+            problems.append(f"exception: {excs[0][:300]}")
+        canary(w, host, lst, problems)
+    return (problems[0] if problems else None), f"reentrant:{'bad' if problems else 'ok'}"
+
+
 def run_stream(item: Tuple[List[Tuple[str, bytes]], int]) -> Tuple[Optional[str], str]:
     """One busy world, a stream of datagrams with clock steps between them."""
     chunk, variant = item
@@ -476,6 +529,12 @@ def run(tier: str, seed: int) -> Tuple[Stats, str, List[str], Dict[str, Any]]:
         record(problem, oc, {"mode": "valid", "item": [list(item[0]), item[1], list(item[2])], "n": 6,
                              "what": f"five well-formed queries {item[0]} ms apart, last {item[1]}, jitter draws {item[2]}"})
     sizes["valid_schedules"] = len(vs)
+    rp = reentrant_points()
+    for item, (problem, oc) in zip(rp, pmap_iter(guarded_problem(run_reentrant), rp, chunk=8)):
+        record(problem, oc, {"mode": "reentrant", "item": list(item), "n": 2,
+                             "what": f"a listener that adds a listener from its {item[3]} callback; a {item[0]} record of 2 s, "
+                                     f"{item[1]} ms later its {item[2]}"})
+    sizes["reentrant"] = len(rp)
     # all ordered pairs of one representative per (kind, decoder outcome class)
     reps: Dict[str, bytes] = {}
     for kind, d in corp:
@@ -513,6 +572,8 @@ def replay(data: Dict[str, Any]) -> int:
         problem, oc = run_cancel(tuple(data["item"]))
     elif data.get("mode") == "train":
         problem, oc = run_train(tuple(data["item"]))
+    elif data.get("mode") == "reentrant":
+        problem, oc = run_reentrant(tuple(data["item"]))
     elif data.get("mode") == "valid":
         it = data["item"]
         problem, oc = run_valid((tuple(it[0]), it[1], tuple(it[2])))
